@@ -37,5 +37,9 @@ check("C19", "exploration",
       "Round-trip law Unescape(Escape(s)) == s / Unescape(EscapeMacro(s)) == s: exhaustive over every rune 0x00-0xFF and every pair, every default binding and macro, random sequences incl. Unicode; plus sessions running dump-functions/-variables/-macros with a numeric argument on generated configurations, whose captured terminal output is parsed back and compared with the live configuration.",
       TCB, "runtime monitoring: inverse-law oracle (exhaustive for length <= 2) + dump/re-parse sessions", "DESIGN.md 5 C19")
 
+check("C06", "exploration",
+      "Online invariants at every input wait (cursor within the buffer, on a character in Vi command mode, selection within the buffer), acceptance equality (returned line == buffer observed before a plain accept), and before/after text equality for 58 (command, keymap) pairs documented as pure movements/copies invoked by name with numeric arguments from history-recalled buffers.",
+      TCB, "runtime monitoring: state invariants at hooked wait points + before/after equality", "DESIGN.md 5 C06")
+
 for _p in ["C03","C04","C05","C06","C07","C08","C09","C10","C11","C12","C13","C14","C15","C16","C17","C18","C19","C20"]:
     NOT_YET[_p] = "check under construction in this session (runtime monitor designed in DESIGN.md section 5, not yet registered)"
